@@ -16,6 +16,8 @@ use trusttunnel::verif::vudp::{self, VDatagram};
 pub struct Proxy {
     pub addr: SocketAddr,
     pub associations: Arc<AtomicUsize>,
+    /// completed passes of the relay loops (every pass drains both sockets of its association)
+    pub ticks: Arc<AtomicUsize>,
     stop: Arc<AtomicBool>,
 }
 
@@ -25,7 +27,7 @@ impl Drop for Proxy {
     }
 }
 
-fn serve(mut tcp: std::net::TcpStream, live: Arc<AtomicUsize>, stop: Arc<AtomicBool>) {
+fn serve(mut tcp: std::net::TcpStream, live: Arc<AtomicUsize>, stop: Arc<AtomicBool>, ticks: Arc<AtomicUsize>) {
     let _ = tcp.set_read_timeout(Some(Duration::from_secs(2)));
     let mut b = [0u8; 512];
     // greeting: VER NMETHODS METHODS...
@@ -110,6 +112,7 @@ fn serve(mut tcp: std::net::TcpStream, live: Arc<AtomicUsize>, stop: Arc<AtomicB
                 let _ = relay.send_to(&w, c);
             }
         }
+        ticks.fetch_add(1, Ordering::SeqCst);
         if idle {
             std::thread::sleep(Duration::from_micros(200));
         }
@@ -123,6 +126,8 @@ pub fn start_proxy() -> Proxy {
     l.set_nonblocking(true).unwrap();
     let associations = Arc::new(AtomicUsize::new(0));
     let stop = Arc::new(AtomicBool::new(false));
+    let ticks = Arc::new(AtomicUsize::new(0));
+    let t2 = ticks.clone();
     let (a2, s2) = (associations.clone(), stop.clone());
     std::thread::spawn(move || loop {
         if s2.load(Ordering::SeqCst) {
@@ -131,13 +136,13 @@ pub fn start_proxy() -> Proxy {
         match l.accept() {
             Ok((c, _)) => {
                 let _ = c.set_nonblocking(false);
-                let (a3, s3) = (a2.clone(), s2.clone());
-                std::thread::spawn(move || serve(c, a3, s3));
+                let (a3, s3, t3) = (a2.clone(), s2.clone(), t2.clone());
+                std::thread::spawn(move || serve(c, a3, s3, t3));
             }
             Err(_) => std::thread::sleep(Duration::from_micros(300)),
         }
     });
-    Proxy { addr, associations, stop }
+    Proxy { addr, associations, ticks, stop }
 }
 
 fn make_core(proxy: SocketAddr) -> Core {
@@ -187,17 +192,30 @@ impl<'a> Hist<'a> {
         let start = Instant::now();
         let mut last = (usize::MAX, 0usize, 0i64, 0usize, 0usize, false);
         let mut stable_since = Instant::now();
+        let mut ticks_at_change = self.proxy.ticks.load(Ordering::SeqCst);
+        let mut relays_done_at: Option<Instant> = None;
         loop {
             for _ in 0..100 {
                 tokio::task::yield_now().await;
             }
             self.drain_servers();
             let snap = (self.srv_seen.len(), self.mux.delivered_len(), self.mux.gauge(), self.mux.flows(), self.proxy.associations.load(Ordering::SeqCst), self.mux.finished());
+            let ticks = self.proxy.ticks.load(Ordering::SeqCst);
             if snap != last {
                 last = snap;
                 stable_since = Instant::now();
+                ticks_at_change = ticks;
+                relays_done_at = None;
             } else if stable_since.elapsed() >= Duration::from_millis(8) && (self.mux.left_idle() || self.mux.finished()) {
-                break;
+                // the relay threads of the proxy must have had their turns since (they may be starved on a loaded machine),
+                // and what they forwarded then needs a quiet moment of its own to come out at the other end
+                if ticks.wrapping_sub(ticks_at_change) >= 4 * self.proxy.associations.load(Ordering::SeqCst) {
+                    match relays_done_at {
+                        None => relays_done_at = Some(Instant::now()),
+                        Some(t) if t.elapsed() >= Duration::from_millis(8) => break,
+                        Some(_) => {}
+                    }
+                }
             }
             if start.elapsed() > Duration::from_secs(3) {
                 break;
